@@ -39,6 +39,7 @@ import Rl.Lemmas.Term
 import Rl.Lemmas.Render
 import Rl.Lemmas.RenderGhost
 import Rl.Lemmas.RenderLogTop
+import Rl.Lemmas.RenderLogExec
 open Rl Rl.Spec
 
 /-- **`calculate_position` is where printing ends.**  If the loop state `p` and the terminal cursor agree
@@ -521,7 +522,7 @@ theorem C02_history_aux (S : Segmenter) (R : RCfg) (prompt : Text) (hc : 2 ≤ R
       C02_Coherent S R prompt s g (ops ++ [.sync line pos hint]) →
       (RS.run S R prompt s (ops ++ [.sync line pos hint])).2 = false →
       ∃ g', C02_Inv S R prompt (RS.run S R prompt s (ops ++ [.sync line pos hint])).1 g' ∧
-        g'.prompt = prompt ∧ splitAtByte line pos = some (g'.before, g'.after) ∧
+        (g'.prompt = prompt ∨ C02_IsSearchPrompt g'.prompt) ∧ splitAtByte line pos = some (g'.before, g'.after) ∧
         (g'.hint = hint.getD [] ∨ g'.hint = []) ∧
         (RS.run S R prompt s (ops ++ [.sync line pos hint])).1.out = [] := by
   intro ops
@@ -548,20 +549,22 @@ theorem C02_history_aux (S : Segmenter) (R : RCfg) (prompt : Text) (hc : 2 ≤ R
 
 /-- **Composition over histories.**  For every render log that the replay accepts without panic and whose
     operations are issued coherently (`C02_Coherent`), at every callback (`sync`) the terminal that has
-    interpreted all bytes written so far shows the prompt, the line and the cursor the callback sees, with
-    the hint the callback sees or without any hint (the reading decision of `Rl/Spec/Screen.lean`: a
-    highlight-forced repaint drops the hint from the screen, not from the editor). -/
+    interpreted all bytes written so far shows the prompt on display — the read's own, or inside an incremental
+    search the search prompt —, the line and the cursor the callback sees, with the hint the callback sees or
+    without any hint (the reading decision of `Rl/Spec/Screen.lean`: a highlight-forced repaint drops the hint
+    from the screen, not from the editor). -/
 theorem C02_history (S : Segmenter) (R : RCfg) (prompt : Text) (ops : List RenderOp) (line : Text) (pos : Nat)
     (hint : Option Text) (b a : Text) (hc : 2 ≤ R.cols) (hprompt : C02_Plain S R prompt)
     (hsplit : splitAtByte line pos = some (b, a))
     (hcoh : C02_Coherent S R prompt (RS.init S R prompt) {} (ops ++ [.sync line pos hint]))
     (hrun : (RS.run S R prompt (RS.init S R prompt) (ops ++ [.sync line pos hint])).2 = false) :
-    Shows R.cw ((Term.blank R.cols).feed R.cw
-        (RS.run S R prompt (RS.init S R prompt) (ops ++ [.sync line pos hint])).1.segs.reverse.flatten)
-      prompt b a (hint.getD []) ∨
-    Shows R.cw ((Term.blank R.cols).feed R.cw
-        (RS.run S R prompt (RS.init S R prompt) (ops ++ [.sync line pos hint])).1.segs.reverse.flatten)
-      prompt b a [] := by
+    ∃ p, (p = prompt ∨ C02_IsSearchPrompt p) ∧
+      (Shows R.cw ((Term.blank R.cols).feed R.cw
+          (RS.run S R prompt (RS.init S R prompt) (ops ++ [.sync line pos hint])).1.segs.reverse.flatten)
+        p b a (hint.getD []) ∨
+       Shows R.cw ((Term.blank R.cols).feed R.cw
+          (RS.run S R prompt (RS.init S R prompt) (ops ++ [.sync line pos hint])).1.segs.reverse.flatten)
+        p b a []) := by
   have hb := C02_blank_tracks R hc
   have hinit : C02_Inv S R prompt (RS.init S R prompt) {} :=
     ⟨⟨rfl, rfl, rfl, rfl, rfl, hb, hb, (by intro x hx; cases hx), ⟨[], rfl⟩⟩, rfl⟩
@@ -574,7 +577,8 @@ theorem C02_history (S : Segmenter) (R : RCfg) (prompt : Text) (ops : List Rende
   have hall : RS.all (RS.run S R prompt (RS.init S R prompt) (ops ++ [.sync line pos hint])).1 =
       (RS.run S R prompt (RS.init S R prompt) (ops ++ [.sync line pos hint])).1.segs.reverse.flatten := by
     unfold RS.all; rw [hout]; simp
-  rw [hall, hp, ← e1, ← e2] at hshow
+  rw [hall, ← e1, ← e2] at hshow
+  refine ⟨g'.prompt, hp, ?_⟩
   rcases hh with hh | hh
   · left; rw [← hh]; exact hshow
   · right; rw [← hh]; exact hshow
@@ -607,10 +611,10 @@ theorem C02_exPlain (s : Text) (hs : ∀ c ∈ s, isC0Control c = false) : C02_P
 /-- non-vacuity of `C02_history`: the log "repaint `>a` with the cursor at the end, callback" is coherent,
     runs without panic, and the theorem yields that the screen shows `>a` -/
 example :
-    Shows C02_exR.cw ((Term.blank C02_exR.cols).feed C02_exR.cw
+    ∃ p, (p = ['>'] ∨ C02_IsSearchPrompt p) ∧ Shows C02_exR.cw ((Term.blank C02_exR.cols).feed C02_exR.cw
         (RS.run C02_cexSeg C02_exR ['>'] (RS.init C02_cexSeg C02_exR ['>'])
           ([.refresh none ['a'] 1 none] ++ [.sync ['a'] 1 none])).1.segs.reverse.flatten)
-      ['>'] ['a'] [] [] := by
+      p ['a'] [] [] := by
   have hp : ∀ s : Text, (∀ c ∈ s, isC0Control c = false) → C02_Plain C02_cexSeg C02_exR s := C02_exPlain
   have := C02_history C02_cexSeg C02_exR ['>'] [.refresh none ['a'] 1 none] ['a'] 1 none ['a'] []
     (by decide) (hp _ (by decide)) rfl
@@ -621,7 +625,7 @@ example :
           rw [h] at hs; injection hs with hs; injection hs with h1 h2; exact ⟨h1.symm, h2.symm⟩
         obtain ⟨rfl, rfl⟩ := this
         exact ⟨hp _ (by decide), hp _ (by decide), hp _ (by decide)⟩⟩,
-      ⟨rfl, rfl, Or.inl rfl⟩, trivial⟩ rfl
+      ⟨Or.inl rfl, rfl, Or.inl rfl⟩, trivial⟩ rfl
   simpa using this
 
 /-! ### the editor model's own log
@@ -631,20 +635,11 @@ example :
   prompt, the current line and cursor, with the current hint or none).  Proved: `Sh` is established by the first
   repaint and kept by every logging primitive (`refreshLine`, `refreshLineWithMsg`, `moveCursor` in its three ways,
   `editInsert` on the fast and the slow path, the callback), by reading and decoding a command in emacs and vi mode
-  (numeric-argument prompts included), by circular completion, by the dispatch loop and the main loop — *given*
-  that each command of `execute`, listing completion and incremental search keep it (`C02_EditorParts`).  Each
-  obligation of `C02_StepOK` is discharged where the operation is logged; no replay step panics. -/
-
-/-- what is assumed of the three parts of the editor model that are not lifted yet -/
-structure C02_EditorParts (S : Segmenter) (U : UData) (cfg : EdCfg) : Prop where
-  /-- every command leaves prompt, line and cursor shown (needs, per line-buffer operation, "reports no
-      change ⇒ changed nothing"; proved here for the shapes `pres_editMove`, `pres_editInsert`) -/
-  exec : ∀ cmd, Pres S U cfg (execute S U cfg cmd)
-  /-- listing completion (the circular variant is proved: `pres_completeCircular`) -/
-  complete : ∀ fuel, Pres S U cfg (completeLine S U cfg fuel)
-  /-- incremental search; **false in general** (finding D42: a command that ends the search without repainting
-      leaves the search prompt on the screen), true without stored history (`pres_ris_of_hist_nil`) -/
-  isearch : ∀ fuel, Pres S U cfg (reverseIncrementalSearch S U cfg fuel)
+  (numeric-argument prompts included), by every command of `execute`, by completion (circular and listing), by
+  incremental search (inside it `ShA`: the search prompt is the prompt on display; every way out repaints under the
+  own prompt since the repair of D42), by the dispatch loop and the main loop — *given* that the line-buffer
+  operations are faithful (`LBFaithful`: "reports no change ⇒ changed nothing").  Each obligation of `C02_StepOK`
+  is discharged where the operation is logged; no replay step panics. -/
 
 /-- the render log of a read, oldest first, without the `writeln` that follows `readline_edit` -/
 def C02_editorLog (S : Segmenter) (U : UData) (cfg : EdCfg) (ring : KillRing) (left right : Text) (inp : Input) :
@@ -656,7 +651,7 @@ def C02_editorLog (S : Segmenter) (U : UData) (cfg : EdCfg) (ring : KillRing) (l
     invariant of C03 / C17). -/
 theorem C02_editor_log_coherent (S : Segmenter) (U : UData) (cfg : EdCfg) (ring : KillRing) (left right : Text)
     (inp : Input) (hc : 2 ≤ cfg.cols) (hprompt : C02_Plain S (edR U cfg) cfg.prompt)
-    (hctl : ∀ c, isC0Control c = true → U.cwidth c = 0) (hparts : C02_EditorParts S U cfg)
+    (hctl : ∀ c, isC0Control c = true → U.cwidth c = 0) (hlb : LBFaithful S U)
     (hfine : LogFine S (edR U cfg) cfg.prompt (C02_editorLog S U cfg ring left right inp).reverse) :
     ∃ rs g, RepFrom S (edR U cfg) cfg.prompt (RS.init S (edR U cfg) cfg.prompt) {}
         (C02_editorLog S U cfg ring left right inp) rs g ∧
@@ -665,7 +660,8 @@ theorem C02_editor_log_coherent (S : Segmenter) (U : UData) (cfg : EdCfg) (ring 
       RS.run S (edR U cfg) cfg.prompt (RS.init S (edR U cfg) cfg.prompt)
         (C02_editorLog S U cfg ring left right inp) = (rs, false) := by
   have hnext := fun fuel sea iep => pres_nextCmd (S := S) (U := U) (cfg := cfg) hc hprompt fuel sea iep
-  have hw := readline_prog_logOK hc hprompt hnext hparts.complete hparts.isearch hctl hparts.exec ring left right inp
+  have hw := readline_prog_logOK hc hprompt hnext (fun fuel => pres_completeLine hc hprompt hlb hnext fuel) hctl
+    (fun cmd => pres_execute hc hprompt hlb hctl cmd) ring left right inp
   unfold C02_editorLog readline at *
   simp only [List.reverse_reverse] at hfine
   unfold wp at hw
@@ -679,32 +675,34 @@ theorem C02_editor_log_coherent (S : Segmenter) (U : UData) (cfg : EdCfg) (ring 
     obtain ⟨rs, g, hrep⟩ := hw hfine
     exact ⟨rs, g, hrep, hrep.coherent.1, hrep.coherent.2⟩
 
-/-- **At every callback of the model's own log the emulated terminal shows prompt, line and cursor** (with the
+/-- **At every callback of the model's own log the emulated terminal shows the prompt on display (the read's own,
+    or inside an incremental search the search prompt), line and cursor** (with the
     hint the callback sees or without any hint): `C02_history` applied to the log the editor model produces. -/
 theorem C02_editor_shows (S : Segmenter) (U : UData) (cfg : EdCfg) (ring : KillRing) (left right : Text)
     (inp : Input) (hc : 2 ≤ cfg.cols) (hprompt : C02_Plain S (edR U cfg) cfg.prompt)
-    (hctl : ∀ c, isC0Control c = true → U.cwidth c = 0) (hparts : C02_EditorParts S U cfg)
+    (hctl : ∀ c, isC0Control c = true → U.cwidth c = 0) (hlb : LBFaithful S U)
     (hfine : LogFine S (edR U cfg) cfg.prompt (C02_editorLog S U cfg ring left right inp).reverse)
     (ops rest : List RenderOp) (line : Text) (pos : Nat) (hint : Option Text) (b a : Text)
     (hlog : C02_editorLog S U cfg ring left right inp = (ops ++ [.sync line pos hint]) ++ rest)
     (hsplit : splitAtByte line pos = some (b, a)) :
-    Shows (edR U cfg).cw ((Term.blank (edR U cfg).cols).feed (edR U cfg).cw
-        (RS.run S (edR U cfg) cfg.prompt (RS.init S (edR U cfg) cfg.prompt)
-          (ops ++ [.sync line pos hint])).1.segs.reverse.flatten) cfg.prompt b a (hint.getD []) ∨
-    Shows (edR U cfg).cw ((Term.blank (edR U cfg).cols).feed (edR U cfg).cw
-        (RS.run S (edR U cfg) cfg.prompt (RS.init S (edR U cfg) cfg.prompt)
-          (ops ++ [.sync line pos hint])).1.segs.reverse.flatten) cfg.prompt b a [] := by
-  obtain ⟨rs, g, hrep, _, _⟩ := C02_editor_log_coherent S U cfg ring left right inp hc hprompt hctl hparts hfine
+    ∃ p, (p = cfg.prompt ∨ C02_IsSearchPrompt p) ∧
+      (Shows (edR U cfg).cw ((Term.blank (edR U cfg).cols).feed (edR U cfg).cw
+          (RS.run S (edR U cfg) cfg.prompt (RS.init S (edR U cfg) cfg.prompt)
+            (ops ++ [.sync line pos hint])).1.segs.reverse.flatten) p b a (hint.getD []) ∨
+       Shows (edR U cfg).cw ((Term.blank (edR U cfg).cols).feed (edR U cfg).cw
+          (RS.run S (edR U cfg) cfg.prompt (RS.init S (edR U cfg) cfg.prompt)
+            (ops ++ [.sync line pos hint])).1.segs.reverse.flatten) p b a []) := by
+  obtain ⟨rs, g, hrep, _, _⟩ := C02_editor_log_coherent S U cfg ring left right inp hc hprompt hctl hlb hfine
   rw [hlog] at hrep
   obtain ⟨rs1, g1, h1⟩ := hrep.prefix
   have hco := h1.coherent
   exact C02_history S (edR U cfg) cfg.prompt ops line pos hint b a hc hprompt hsplit hco.1 (by rw [hco.2])
 
-/-- not proved yet: every command of `execute` and listing completion keep the screen in step.  What is missing
-    is, per line-buffer operation used by a command, the fact "reports no change ⇒ text and cursor unchanged"
-    (motions: `MoveOK`), then one `wp` proof per command from `wp_refreshLine_sh` / `wp_moveCursor_sh` /
-    `wp_editInsert_sh`; for `completeLine` only the shape of its `do` block stands in the way. -/
-def C02_execute_pres_statement : Prop :=
-  ∀ (S : Segmenter) (U : UData) (cfg : EdCfg), 2 ≤ cfg.cols → C02_Plain S (edR U cfg) cfg.prompt →
-    (∀ c, isC0Control c = true → U.cwidth c = 0) →
-    (∀ cmd, Pres S U cfg (execute S U cfg cmd)) ∧ (∀ fuel, Pres S U cfg (completeLine S U cfg fuel))
+/-- not proved yet: the line-buffer operations are faithful (`LBFaithful`, `Rl/Lemmas/RenderLogExec.lean`) — a motion
+    leaves the text alone and answers `false` only if the cursor did not move; an edit that answers "nothing
+    changed" (`false` / `None`) changed neither text nor cursor; an `Undo` that undid nothing left the line alone; a
+    refused paste after the step forward of `Anchor::After` and the step back end where the command started.  These
+    are statements about `Rl/LineBuffer.lean` / `Rl/Undo.lean` alone (C03 / C04 / C05 territory; several follow from
+    theorems there, e.g. `C03_motion_copy_pure`, `C04_moveToLineUp_dest`); everything above them — every command of
+    `execute`, completion, incremental search, the loops — is proved. -/
+def C02_lbFaithful_statement : Prop := ∀ (S : Segmenter) (U : UData), LBFaithful S U
